@@ -324,7 +324,7 @@ theorem count_law (hC : Lawful C VC WC)
       | succ n => simp [denseLoop, Common]
     | cons a m =>
       have hne : ll ≠ [] := by rw [hll]; simp
-      obtain ⟨h1, h2, hRB, hOB⟩ := ha hne
+      obtain ⟨h1, h2, hRB, hOB, _, _⟩ := ha hne
       have hOV : All2 VC s.others los := all2_VB_V hOB
       have hObound : ∀ lo ∈ los, Spec.doc lo ≤ Spec.doc ll := all2_VB_bound hOB
       have hdmem : Spec.doc ll ∈ ll := by rw [hll]; simp [Spec.doc]
